@@ -158,7 +158,7 @@ def random_strings(seed, n):
     pool = [chr(i) for i in range(32, 127)] * 2 + list("abcxyzABC0123456789") * 6 + ["é", "ß", "日", "\U0001F600", "\n", "\t", "\x00", " ", "١"]
     out = []
     for _ in range(n):
-        ln = r.randint(1, 40)
+        ln = r.randint(1, 40) if r.random() > 0.02 else r.choice([255, 256, 257, 1000, 4096, 65537])
         if r.random() < 0.5:
             base = list("abcdefXYZ0189._-/")
             s = "".join(r.choice(base) for _ in range(ln))
@@ -216,9 +216,12 @@ def judge(ty, s, rep, sh):
     if p["ok"]:
         shown = bytes.fromhex(p["display"]).decode()
         if ty in NEWTYPES:
-            for k in ("display", "deref", "ser"):
-                if bytes.fromhex(p[k]).decode() != s:
-                    sh.violation("%s:render:%s" % (ty, k), "%s accepted %r but its %s is %r" % (ty, s, k, bytes.fromhex(p[k]).decode()), case)
+            if p.get("clone_eq") is not True:
+                sh.violation("%s:render:clone-eq" % ty, "%s accepted %r but its clone compares unequal" % (ty, s), case)
+                return
+            for k in ("display", "deref", "ser", "borrow_str", "borrow_string", "as_ref", "clone", "toml_ser"):
+                if p[k] is None or bytes.fromhex(p[k]).decode() != s:
+                    sh.violation("%s:render:%s" % (ty, k), "%s accepted %r but its %s is %r" % (ty, s, k, None if p[k] is None else bytes.fromhex(p[k]).decode()), case)
                     return
             if bytes.fromhex(t["display"]).decode() != s:
                 sh.violation("%s:render:toml" % ty, "%s deserialised from %r displays as %r" % (ty, s, bytes.fromhex(t["display"]).decode()), case)
@@ -327,7 +330,8 @@ def macro_route(work, lits, out):
         with open(os.path.join(crate, "Cargo.toml"), "w") as f:
             f.write('[package]\nname = "litcrate"\nversion = "0.0.0"\nedition = "2024"\n[workspace]\n'
                     '[dependencies]\nlibcnb-data = { path = "%s/libcnb-data" }\n' % vp.REPO)
-        shutil.copy(os.path.join(vp.REPO, "Cargo.lock"), os.path.join(crate, "Cargo.lock"))
+        lock = os.path.join(vp.REPO, "Cargo.lock")          # untracked in the repository: a bare checkout has none, the harness' own lock file covers libcnb-data too
+        shutil.copy(lock if os.path.exists(lock) else os.path.join(vp.HARNESS, "Cargo.lock"), os.path.join(crate, "Cargo.lock"))
         env = dict(os.environ)
         env.update(vp.CARGO_ENV)
         env["CARGO_TARGET_DIR"] = os.path.join(vp.HARNESS, "target", "lit")
@@ -363,7 +367,8 @@ def macro_route(work, lits, out):
                         spans.append(sp)
                         break
                     sp = (sp.get("expansion") or {}).get("span")
-            if "is not a valid" in text and spans:
+            if spans:
+                # whatever the wording: a literal whose macro invocation does not compile is a literal rejected at compile time
                 for sp in spans:
                     rejected.add(sp["line_start"] - 2)      # line 1 is "fn main() {"
             elif "aborting due to" in text or "could not compile" in text:
@@ -431,7 +436,9 @@ def run(tier, seed, work):
     th.join()
     # literal route vs. run-time route
     if "error" in mout:
-        res.inconclusive.append(mout["error"])
+        # the compile-time route is a third of the statement and works on every tree that builds: not being able to observe it is a
+        # broken check, never a quiet pass
+        raise vp.Broken(mout["error"])
     else:
         mon = vp.Mon("parse")
         sh = vp.Shard()
